@@ -17,6 +17,8 @@
 //!   Junk on the relay socket (`junk=`): a datagram that is not a well-formed RFC 1928 request is sent to the
 //!   relay address of a SOCKS5 association (by its own client or by another local socket); the next
 //!   ordinary exchange of every client must work (RFC 1928 section 7: the relay drops such datagrams).
+//!   Long flows (`rounds=`): the exchanges are repeated on the same sockets without a pause until one flow has
+//!   carried more than 64 KiB of replies (once, three times); every reply must arrive whole.
 //! * maps: the client's two UDP maps against the Lean model under the paused clock (maps.rs).
 //!
 //! Every wait is bounded; a hang is a failure.  A failing scenario is run again on its own in a
@@ -319,6 +321,7 @@ fn random_udp(r: &mut Rng, socks: bool) -> UdpScn {
         idle_ms: 0,
         oneway: None,
         junk: None,
+        rounds: 1,
         seed: r.next() % 1_000_000_000,
     }
 }
@@ -330,7 +333,7 @@ fn random_udp(r: &mut Rng, socks: bool) -> UdpScn {
 /// scenario of this family runs in a world of its own, concurrently with everything else.
 fn one_way_pass(r: &mut Rng, tier: Tier) -> Vec<Scn> {
     let mk = |socks: bool, clients: usize, targets: &[usize], sizes: &[usize], replies: usize, domain: bool, seed: u64, ow: OneWay| {
-        Scn::Udp(UdpScn { socks, clients, targets: targets.to_vec(), sizes: sizes.to_vec(), replies, domain, idle_ms: 0, oneway: Some(ow), junk: None, seed })
+        Scn::Udp(UdpScn { socks, clients, targets: targets.to_vec(), sizes: sizes.to_vec(), replies, domain, idle_ms: 0, oneway: Some(ow), junk: None, rounds: 1, seed })
     };
     let ow = |ms: u64, gap_ms: u64, sizes: &[usize], streamers: usize, shared: bool, at_ms: Option<u64>| OneWay { ms, gap_ms, sizes: sizes.to_vec(), streamers, shared, at_ms };
     let mut v = vec![
@@ -380,7 +383,7 @@ fn one_way_pass(r: &mut Rng, tier: Tier) -> Vec<Scn> {
 /// property: the next datagram still reaches the target and its reply the right client, for every client.
 fn junk_pass(r: &mut Rng, tier: Tier) -> Vec<Scn> {
     let mk = |clients: usize, targets: &[usize], sizes: &[usize], domain: bool, seed: u64, kind: JunkKind, other: bool, before: bool| {
-        Scn::Udp(UdpScn { socks: true, clients, targets: targets.to_vec(), sizes: sizes.to_vec(), replies: 1, domain, idle_ms: 0, oneway: None, junk: Some(Junk { kind, other, before }), seed })
+        Scn::Udp(UdpScn { socks: true, clients, targets: targets.to_vec(), sizes: sizes.to_vec(), replies: 1, domain, idle_ms: 0, oneway: None, junk: Some(Junk { kind, other, before }), rounds: 1, seed })
     };
     let mut v = vec![
         // (the first is also corpus/C01/junk-datagram-ends-association.ops)
@@ -395,6 +398,39 @@ fn junk_pass(r: &mut Rng, tier: Tier) -> Vec<Scn> {
             // ... and before anything valid, alternating the sender; with a second association next to it
             v.push(mk(1, &[0], &[24], false, r.next() % 1_000_000, *k, i % 2 == 0, true));
             v.push(mk(2, &[0, 1], &[16, 1400], i % 3 == 0, r.next() % 1_000_000, *k, i % 2 == 1, i % 4 == 0));
+        }
+    }
+    v
+}
+
+/// Long flows: many request/reply exchanges on the same sockets without a pause, so that ONE flow (one forwarder
+/// on the server, one entry in the client's maps) carries more than 64 KiB (the largest datagram, the size of
+/// the receive buffers) of replies, once and several times over.  Every reply must arrive whole.
+fn long_flow_pass(r: &mut Rng, tier: Tier) -> Vec<Scn> {
+    let mk = |socks: bool, clients: usize, targets: &[usize], sizes: &[usize], replies: usize, rounds: usize, seed: u64| {
+        Scn::Udp(UdpScn { socks, clients, targets: targets.to_vec(), sizes: sizes.to_vec(), replies, domain: false, idle_ms: 0, oneway: None, junk: None, rounds, seed })
+    };
+    let mut v = vec![];
+    for socks in [true, false] {
+        // 70 x 1002 bytes of replies: past 64 KiB once (also corpus/C01/long-flow-replies-past-64k.ops)
+        v.push(mk(socks, 1, &[0], &[1000], 1, 70, 11));
+        if tier == Tier::Thorough {
+            let mut seed = || r.next() % 1_000_000;
+            // three times past 64 KiB, large and medium replies
+            v.push(mk(socks, 1, &[0], &[1400], 1, 145, seed()));
+            v.push(mk(socks, 1, &[1], &[700], 1, 300, seed()));
+            // mixed sizes (the reply that straddles the boundary is any of them), tiny replies for a long time
+            v.push(mk(socks, 1, &[0], &[100, 1400, 9, 513], 1, 40, seed()));
+            v.push(mk(socks, 1, &[0], &[1399, 0, 1200], 1, 60, seed()));
+            v.push(mk(socks, 1, &[1], &[61], 1, 1100, seed())); // 63-byte replies: 64 would end exactly on the 64 KiB boundary
+            // more reply bytes than request bytes
+            v.push(mk(socks, 1, &[0], &[600], 2, 60, seed()));
+            v.push(mk(socks, 1, &[1], &[300], 3, 80, seed()));
+            // two clients and two targets interleaved (SOCKS5: one flow per client for both targets; UDP remotes:
+            // one flow per client and listener), and the IPv6 target
+            v.push(mk(socks, 2, &[0, 1], &[1000], 1, 70, seed()));
+            v.push(mk(socks, 2, &[0, 1], &[1400, 11], 2, 30, seed()));
+            v.push(mk(socks, 1, &[2], &[1000], 1, 70, seed()));
         }
     }
     v
@@ -439,15 +475,17 @@ fn fixed_pass(r: &mut Rng, tier: Tier) -> Vec<Scn> {
     }
     // UDP
     for socks in [false, true] {
-        v.push(Scn::Udp(UdpScn { socks, clients: 1, targets: vec![0], sizes: vec![0, 1, 3, 4, 10, 1400], replies: 1, domain: false, idle_ms: 0, oneway: None, junk: None, seed: r.next() % 1_000_000 }));
-        v.push(Scn::Udp(UdpScn { socks, clients: 4, targets: vec![0, 1], sizes: vec![10, 0, 1399, 64], replies: 2, domain: false, idle_ms: 0, oneway: None, junk: None, seed: r.next() % 1_000_000 }));
-        v.push(Scn::Udp(UdpScn { socks, clients: 2, targets: vec![2], sizes: vec![12, 0, 700], replies: 1, domain: false, idle_ms: 0, oneway: None, junk: None, seed: r.next() % 1_000_000 }));
+        v.push(Scn::Udp(UdpScn { socks, clients: 1, targets: vec![0], sizes: vec![0, 1, 3, 4, 10, 1400], replies: 1, domain: false, idle_ms: 0, oneway: None, junk: None, rounds: 1, seed: r.next() % 1_000_000 }));
+        v.push(Scn::Udp(UdpScn { socks, clients: 4, targets: vec![0, 1], sizes: vec![10, 0, 1399, 64], replies: 2, domain: false, idle_ms: 0, oneway: None, junk: None, rounds: 1, seed: r.next() % 1_000_000 }));
+        v.push(Scn::Udp(UdpScn { socks, clients: 2, targets: vec![2], sizes: vec![12, 0, 700], replies: 1, domain: false, idle_ms: 0, oneway: None, junk: None, rounds: 1, seed: r.next() % 1_000_000 }));
     }
-    v.push(Scn::Udp(UdpScn { socks: true, clients: 3, targets: vec![0, 1], sizes: vec![16, 2, 1400], replies: 1, domain: true, idle_ms: 0, oneway: None, junk: None, seed: r.next() % 1_000_000 }));
+    v.push(Scn::Udp(UdpScn { socks: true, clients: 3, targets: vec![0, 1], sizes: vec![16, 2, 1400], replies: 1, domain: true, idle_ms: 0, oneway: None, junk: None, rounds: 1, seed: r.next() % 1_000_000 }));
     // one SOCKS5 UDP client socket, an IPv4 and an IPv6 target (and the same through two UDP remotes, where each
     // listener has its own flow id)
-    v.push(Scn::Udp(UdpScn { socks: true, clients: 1, targets: vec![0, 2], sizes: vec![16, 17], replies: 1, domain: false, idle_ms: 0, oneway: None, junk: None, seed: 3 }));
-    v.push(Scn::Udp(UdpScn { socks: false, clients: 2, targets: vec![0, 2], sizes: vec![16, 17], replies: 1, domain: false, idle_ms: 0, oneway: None, junk: None, seed: 4 }));
+    v.push(Scn::Udp(UdpScn { socks: true, clients: 1, targets: vec![0, 2], sizes: vec![16, 17], replies: 1, domain: false, idle_ms: 0, oneway: None, junk: None, rounds: 1, seed: 3 }));
+    v.push(Scn::Udp(UdpScn { socks: false, clients: 2, targets: vec![0, 2], sizes: vec![16, 17], replies: 1, domain: false, idle_ms: 0, oneway: None, junk: None, rounds: 1, seed: 4 }));
+    // long flows: more than 64 KiB of replies on one pair of sockets
+    v.extend(long_flow_pass(r, tier));
     // junk on the relay socket of a SOCKS5 UDP association
     v.extend(junk_pass(r, tier));
     // dialogues after a half-close, every entry point kind
@@ -572,7 +610,8 @@ fn main() {
     let rule = "scenario = 1-4 concurrent local TCP connections (entry point kind, close order incl. dialogues after a half-close, payload sizes, chunkings) or one UDP \
 scenario (1-4 local UDP clients x tagged echo targets x payload sizes, via UDP remotes or SOCKS5 UDP associations; also after an idle \
 time, one-way streams longer than two idle timeouts that the target answers only at the end, and exchanges after a malformed \
-datagram on the relay socket of a SOCKS5 association) run in real time \
+datagram on the relay socket of a SOCKS5 association, and long flows: up to 1100 exchanges on the same sockets, more than \
+64 KiB of replies once and three times over) run in real time \
 through the real client_main_inner and the real server on loopback; plus map-operation sequences on the real client maps under the \
 paused clock compared with the Lean model. Non-trivial = at least one byte / one datagram crossed the tunnel, or a close / refusal \
 was propagated; distinct by scenario text";
@@ -648,7 +687,7 @@ was propagated; distinct by scenario text";
     let mut waiting: Vec<Scn> = vec![];
     if only.as_deref() != Some("maps") && !args.flag("--no-idle") {
         for socks in [false, true] {
-            waiting.push(Scn::Udp(UdpScn { socks, clients: 2, targets: vec![0, 1], sizes: vec![24], replies: 1, domain: false, idle_ms: 10_600, oneway: None, junk: None, seed: 5 }));
+            waiting.push(Scn::Udp(UdpScn { socks, clients: 2, targets: vec![0, 1], sizes: vec![24], replies: 1, domain: false, idle_ms: 10_600, oneway: None, junk: None, rounds: 1, seed: 5 }));
         }
         if !args.flag("--no-one-way") {
             waiting.extend(one_way_pass(&mut rng.fork(3), args.tier));
@@ -847,6 +886,10 @@ was propagated; distinct by scenario text";
                 rep.count_n("udp/replies-checked", o.replies_ok as u64);
                 if u.idle_ms > 0 {
                     rep.count("udp/after-idle");
+                }
+                if u.rounds > 1 {
+                    let kib = u.rounds * u.sizes.iter().map(|n| (n + 2) * u.replies).sum::<usize>() / 1024;
+                    rep.count(&format!("udp/long-flow/{}/reply-KiB-per-client-and-target-{}", if u.socks { "socks5" } else { "udp-remote" }, match kib { 0..=63 => "<64", 64..=127 => "64..127", 128..=191 => "128..191", _ => ">=192" }));
                 }
                 if let Some(j) = &u.junk {
                     rep.count(&format!("udp/after-junk/{}/by-{}/{}", j.kind.text(), if j.other { "other-socket" } else { "own-socket" }, if j.before { "before-any-exchange" } else { "after-an-exchange" }));
